@@ -43,12 +43,14 @@ inductive Kind
   | anyOf | oneOf | allOf | notF           -- multi-field wrappers (`Shape.wrap`)
   | any                                    -- Anything / untyped content / additional properties
   | owner                                  -- the defensive deep copy of an immutable owner (ImmutableStructure / immutable=True field)
+  | misfit                                 -- `<Wrapper>.serialize` handing a value to its fixed option although it does not fit it
   | document | mapping | names | required | enumValues | default | schema | fieldState   -- class-level / document-level sites
   deriving DecidableEq, Repr, Inhabited
 
 /-- what the element declaration of a collection looks like (the code branches on it) -/
 inductive Cat
   | none | number | string | scalar | any | untyped | coll | struct | inline | wrap
+  | enum        -- an Enum option of a delegating wrapper (`Enum.serialize` returns whatever it is given)
   deriving DecidableEq, Repr, Inhabited
 
 inductive Mode
@@ -79,7 +81,7 @@ def OpK.isInput : OpK → Bool
 
 /-- sites whose content has no declared type: a copy there is a generic deep copy -/
 def Kind.isLeafSite : Kind → Bool
-  | .any | .owner | .document | .mapping | .names | .required | .enumValues | .default | .schema | .fieldState => true
+  | .any | .owner | .misfit | .document | .mapping | .names | .required | .enumValues | .default | .schema | .fieldState => true
   | _ => false
 
 /-- behaviour of the code at a node, read off a table row -/
@@ -303,7 +305,10 @@ def fits : Shape → Heap → Item → Bool
   | .coll k _, h, i => refFits k h i
   | .keyed k _, h, i => refFits k h i
   | .wrap _ _, _, _ => true
-  | .wrapN k _ opts, h, i => fitsOpts (k == .allOf) opts h i
+  | .wrapN k p opts, h, i =>
+    match p with
+    | .fixed _ => true            -- a delegating `<Wrapper>.serialize` takes whatever it is handed and decides inside
+    | .firstFit => fitsOpts (k == .allOf) opts h i
   | .owned s, h, i => fits s h i
 termination_by structural s => s
 /-- `all = false`: some option fits (AnyOf / OneOf); `all = true`: every option fits (AllOf) -/
@@ -325,6 +330,16 @@ def pickIdx (p : Pick) (opts : List Shape) (h : Heap) (i : Item) : Nat :=
   | .fixed n => match opts[n]? with
     | some s => if fits s h i then n else opts.length
     | none => opts.length
+
+/-- the table site of a value that no option takes: with first-fit choice the wrapper's own `(k, untyped)` site
+    (raises on input); with a FIXED delegation the value is handed to that option all the same — what
+    `<option>.serialize` does with a value it was not made for is the site `(misfit, <the option's category>)` -/
+def fallbackSite (k : Kind) (p : Pick) (opts : List Shape) : Kind × Cat :=
+  match p with
+  | .firstFit => (k, .untyped)
+  | .fixed n => match opts[n]? with
+    | some s => (.misfit, s.cat)
+    | none => (k, .untyped)
 
 /-- one step through the option list: option 0 is the chosen one, otherwise look further -/
 def optStep (f : Heap → Item → R Item) (g : Nat → Heap → Item → R Item) : Nat → Heap → Item → R Item
@@ -361,15 +376,16 @@ def transfer (M : Kind → Cat → Mode) (fuel : Nat) : Shape → Heap → Item 
   | .coll k s, h, i => nodeColl (M k s.cat) fuel (fun h' i' => transfer M fuel s h' i') h i
   | .keyed k fs, h, i => nodeRec (M k .none) fuel (fun h' its => transferFields M fuel fs h' its) h i
   | .wrap k s, h, i => nodeWrap (M k s.cat) fuel (fun h' i' => transfer M fuel s h' i') h i
-  | .wrapN k p opts, h, i => transferOpts M fuel k opts (pickIdx p opts h i) h i
+  | .wrapN k p opts, h, i =>
+    transferOpts M fuel k (M (fallbackSite k p opts).1 (fallbackSite k p opts).2) opts (pickIdx p opts h i) h i
   | .owned s, h, i => nodeOwned (M .owner .none) fuel (fun h' i' => transfer M fuel s h' i') h i
 termination_by structural s => s
 /-- walk to the chosen option; past the end: no option takes the value — the wrapper's generic path (site `(k, untyped)`) -/
-def transferOpts (M : Kind → Cat → Mode) (fuel : Nat) (k : Kind) : List Shape → Nat → Heap → Item → R Item
-  | [], _, h, i => leafAny (M k .untyped) fuel h i
+def transferOpts (M : Kind → Cat → Mode) (fuel : Nat) (k : Kind) (fb : Mode) : List Shape → Nat → Heap → Item → R Item
+  | [], _, h, i => leafAny fb fuel h i
   | s :: rest, n, h, i =>
     optStep (nodeWrap (M k s.cat) fuel (fun h' i' => transfer M fuel s h' i'))
-      (fun n' h' i' => transferOpts M fuel k rest n' h' i') n h i
+      (fun n' h' i' => transferOpts M fuel k fb rest n' h' i') n h i
 termination_by structural opts => opts
 def transferFields (M : Kind → Cat → Mode) (fuel : Nat) :
     List (String × Shape) → Heap → List (String × Item) → R (List (String × Item))
@@ -396,7 +412,7 @@ def safeShape (M : Kind → Cat → Mode) : Shape → Bool
   | .coll k s => (M k s.cat).copies && safeShape M s
   | .keyed k fs => (M k .none).copies && safeFields M fs
   | .wrap k s => (M k s.cat).copies && safeShape M s
-  | .wrapN k _ opts => (M k .untyped).copies && safeOpts M k opts
+  | .wrapN k p opts => (M (fallbackSite k p opts).1 (fallbackSite k p opts).2).copies && safeOpts M k opts
   | .owned s => safeShape M s
 termination_by structural s => s
 /-- whichever option takes the value, it copies -/
@@ -419,8 +435,8 @@ def sitesOf : Shape → List (Kind × Cat)
   | .coll k s => (k, s.cat) :: sitesOf s
   | .keyed k fs => (k, .none) :: sitesOfFields fs
   | .wrap k s => (k, s.cat) :: sitesOf s
-  | .wrapN k _ opts => (k, .untyped) :: sitesOfOpts k opts
-  | .owned s => sitesOf s
+  | .wrapN k p opts => fallbackSite k p opts :: sitesOfOpts k opts
+  | .owned s => (.owner, .none) :: sitesOf s
 termination_by structural s => s
 def sitesOfOpts (k : Kind) : List Shape → List (Kind × Cat)
   | [] => []
